@@ -37,13 +37,15 @@
 enum { D_NORMAL, D_DROP };
 enum { PK_TCP, PK_XREQ };
 static const char *pkname[2] = { "rawtcp", "xreq" };
-enum { R_NONE, R_OUT, R_ANSWERED, R_DROP };
+enum { R_NONE, R_OUT, R_ANSWERED, R_DROP, R_LOST };
 
 typedef struct {
 	int      tran; // transport of the nng raw REQ peers
 	int      npeers, nworkers, ttl, window, rounds;
 	int      kind[MAXPEERS];
 	bool     use_sock;
+	bool     raw;  // the replier is an nng raw REP socket with echo loops (xrep.c routing)
+	bool     cuts; // raw TCP requesters drop their connection mid-round and reconnect
 	long     exchanges;
 	int      jit_permille, jit_us;
 	uint32_t nonce;
@@ -59,6 +61,7 @@ typedef struct {
 static struct {
 	nng_socket        rep;
 	pthread_barrier_t bar;
+	pthread_mutex_t   cutmtx; // one reconnect at a time (pipe counting)
 	_Atomic bool      stop;
 	char              xurl[128];
 	uint16_t          tcp_port;
@@ -169,7 +172,7 @@ worker_thread(void *arg)
 			continue;
 		}
 		nng_msg_free(m);
-		if (((tag >> 8) & 0xff) == D_DROP) {
+		if (((tag >> 8) & 0xf) == D_DROP) {
 			w->dropped++; // never answered; the next receive replaces it
 			continue;
 		}
@@ -202,6 +205,56 @@ worker_thread(void *arg)
 	return NULL;
 }
 
+// Raw REP replier: the application echoes with the header (pipe id + backtrace)
+// untouched, so routing is entirely xrep.c's: push the pipe id on receive,
+// route by it on send.
+static void *
+raw_worker_thread(void *arg)
+{
+	worker *w = arg;
+	vf_rng  r;
+	vf_rng_seed(&r, w->cc->key, 300 + (uint64_t) w->idx);
+	while (!atomic_load(&G.stop)) {
+		nng_msg *m = NULL;
+		int      rv = nng_recvmsg(G.rep, &m, 0);
+		if (rv == NNG_ETIMEDOUT) {
+			w->recv_timeouts++;
+			continue;
+		}
+		if (rv != 0) break;
+		uint32_t tag;
+		uint64_t seq;
+		if (vf_body_check(nng_msg_body(m), nng_msg_len(m), &tag, &seq) != 0) {
+			vf_violation("C04/request-garbled/body", "raw REP received a %zu-byte request that fails its checksum (header %zu bytes)", nng_msg_len(m), nng_msg_header_len(m));
+			nng_msg_free(m);
+			continue;
+		}
+		if (((tag >> 8) & 0xf) == D_DROP) {
+			w->dropped++;
+			nng_msg_free(m);
+			continue;
+		}
+		if (vf_chance(&r, 1, 8)) vf_usleep((int) vf_below(&r, 400));
+		uint8_t buf[24 + 64 + 8];
+		size_t  bl = VF_BODY_MIN + vf_below(&r, 64);
+		vf_body_make(buf, bl, tag, seq);
+		put32(buf + bl, (uint32_t) w->idx);
+		put32(buf + bl + 4, 0);
+		nng_msg_clear(m);
+		nng_msg_append(m, buf, bl + 8);
+		if ((rv = nng_sendmsg(G.rep, m, 0)) != 0) {
+			nng_msg_free(m);
+			if (rv == NNG_ECLOSED) break;
+			char key[96];
+			snprintf(key, sizeof(key), "C04/rep-send-failed/raw-%s", errname(rv));
+			vf_violation(key, "raw REP: reply to peer %u seq %llu failed: %s", tag & 0xff, (unsigned long long) seq, nng_strerror(rv));
+			continue;
+		}
+		w->served++;
+	}
+	return NULL;
+}
+
 // ------------------------------------------------------------ peers (raw REQ)
 typedef struct {
 	int            idx, kind;
@@ -214,6 +267,8 @@ typedef struct {
 	reqrec        *recs;
 	uint32_t       nrecs;
 	bool           failed;
+	uint32_t       gen; // connection generation (4 bits travel in the tag)
+	long           cuts, lost, raw_verified;
 	long           sent, verified, drops, common_used, maxwin;
 	long           by_hops[MAXWORDS];
 	bool           seen_worker[MAXWORK];
@@ -240,7 +295,7 @@ peer_send(peer *p, uint32_t seq, bool last)
 	}
 	rc->nwords = (uint8_t) (hops + 1);
 	rc->state = dir == D_DROP ? R_DROP : R_OUT;
-	uint32_t tag = (cc->nonce << 16) | ((uint32_t) dir << 8) | (uint32_t) p->idx;
+	uint32_t tag = (cc->nonce << 16) | ((p->gen & 0xf) << 12) | ((uint32_t) dir << 8) | (uint32_t) p->idx;
 	p->by_hops[hops]++;
 	p->sent++;
 	if (dir == D_DROP) p->drops++;
@@ -283,6 +338,11 @@ peer_judge(peer *p, const uint32_t *bt, int nbt, const uint8_t *body, size_t len
 		vf_violation(key, "connection %d received the reply (by worker %u) to connection %u's request seq %llu", p->idx, widx, tag & 0xff, (unsigned long long) seq);
 		return false;
 	}
+	if (((tag >> 12) & 0xf) != (p->gen & 0xf) || (seq != 0 && seq < p->nrecs && p->recs[seq].state == R_LOST)) {
+		snprintf(key, sizeof(key), "C04/rep-wrong-connection/%s/dead-connection", pkname[p->kind]);
+		vf_violation(key, "requester %d: the reply (by worker %u) to seq %llu, a request sent on its previous, closed connection, arrived on its new connection", p->idx, widx, (unsigned long long) seq);
+		return false;
+	}
 	if (seq == 0 || seq >= p->nrecs || p->recs[seq].state == R_NONE) {
 		snprintf(key, sizeof(key), "C04/rep-unsolicited/%s/never-sent", pkname[p->kind]);
 		vf_violation(key, "connection %d received a reply for seq %llu which it never sent", p->idx, (unsigned long long) seq);
@@ -306,6 +366,7 @@ peer_judge(peer *p, const uint32_t *bt, int nbt, const uint8_t *body, size_t len
 		return true;
 	}
 	p->verified++;
+	if (p->cc->raw) p->raw_verified++;
 	if (widx < MAXWORK) p->seen_worker[widx] = true;
 	return true;
 }
@@ -361,7 +422,39 @@ peer_thread(void *arg)
 	for (int round = 0; round < cc->rounds; round++) {
 		long n = p->quota / cc->rounds + (round < p->quota % cc->rounds ? 1 : 0);
 		long sent = 0, out = 0, bad = 0;
+		long cut_at = (cc->cuts && p->kind == PK_TCP && n > 8 && vf_chance(&p->rng, 2, 3)) ? (long) vf_range(&p->rng, 2, (uint32_t) n - 3) : -1;
 		while (!p->failed && (sent < n || out > 0)) {
+			if (sent == cut_at && out > 0) {
+				// Drop the connection with requests outstanding and come
+				// back on a new one.  Replies to the old connection's
+				// requests must vanish: they may not show up here or on
+				// anybody else's connection.
+				cut_at = -1;
+				pthread_mutex_lock(&G.cutmtx);
+				close(p->fd);
+				for (int i = 0; vf_pipe_count(G.rep) > cc->npeers - 1; i++) {
+					if (i > 20000) vf_harness_fail("REP did not drop a closed connection");
+					vf_msleep(1);
+				}
+				for (uint32_t q = 1; q <= seq; q++) {
+					if (p->recs[q].state == R_OUT) {
+						p->recs[q].state = R_LOST;
+						p->lost++;
+					}
+				}
+				out = 0;
+				p->gen++;
+				p->cuts++;
+				uint16_t peerproto = 0;
+				if ((p->fd = vf_tcp_connect(G.tcp_port, 5000)) < 0) vf_harness_fail("raw reconnect");
+				if (vf_sp_handshake(p->fd, 0x30, &peerproto, 5000) != 0 || peerproto != 0x31) vf_harness_fail("raw handshake (peer %04x)", peerproto);
+				for (int i = 0; vf_pipe_count(G.rep) < cc->npeers; i++) {
+					if (i > 20000) vf_harness_fail("REP did not take the new connection");
+					vf_msleep(1);
+				}
+				pthread_mutex_unlock(&G.cutmtx);
+				continue;
+			}
 			while (sent < n && out < cc->window && !p->failed) {
 				int rv = peer_send(p, ++seq, sent == n - 1);
 				sent++;
@@ -396,14 +489,20 @@ peer_thread(void *arg)
 // ------------------------------------------------------------ quiet-phase probes
 static long probe_second_recv, probe_idle_send;
 
+static long probe_second_recv_sock;
+
 static void
-quiet_probes(nng_ctx pc, bool sock_free, nng_aio *a1, nng_aio *a2)
+second_recv_probe(nng_ctx pc, bool on_sock, nng_aio *a1, nng_aio *a2)
 {
 	char key[96];
 	// first receive pends (nothing is in flight), second must be refused
 	for (int attempt = 0;; attempt++) {
 		nng_aio_set_timeout(a1, 5000);
-		nng_ctx_recv(pc, a1);
+		if (on_sock) {
+			nng_socket_recv(G.rep, a1);
+		} else {
+			nng_ctx_recv(pc, a1);
+		}
 		vf_usleep(200);
 		if (nng_aio_busy(a1)) break;
 		nng_aio_wait(a1);
@@ -416,23 +515,38 @@ quiet_probes(nng_ctx pc, bool sock_free, nng_aio *a1, nng_aio *a2)
 		if (rv1 != NNG_ETIMEDOUT || attempt >= 3) vf_harness_fail("quiet phase is not quiet: probe receive completed with %s", nng_strerror(rv1));
 	}
 	nng_aio_set_timeout(a2, 1000);
-	nng_ctx_recv(pc, a2);
+	if (on_sock) {
+		nng_socket_recv(G.rep, a2);
+	} else {
+		nng_ctx_recv(pc, a2);
+	}
 	nng_aio_wait(a2);
 	int rv = nng_aio_result(a2);
 	if (rv == NNG_ESTATE) {
-		probe_second_recv++;
+		if (on_sock) {
+			probe_second_recv_sock++;
+		} else {
+			probe_second_recv++;
+		}
 	} else {
 		nng_msg *m = nng_aio_get_msg(a2);
 		nng_aio_set_msg(a2, NULL);
 		if (m != NULL) nng_msg_free(m);
-		snprintf(key, sizeof(key), "C04/state/rep-second-recv/%s", errname(rv));
-		vf_violation(key, "a second receive on a REP context whose first receive is pending returned %s, expected NNG_ESTATE", nng_strerror(rv));
+		snprintf(key, sizeof(key), on_sock ? "C04/state/rep-second-recv/socket/%s" : "C04/state/rep-second-recv/%s", errname(rv));
+		vf_violation(key, "a second receive on a REP %s whose first receive is pending returned %s, expected NNG_ESTATE", on_sock ? "socket" : "context", nng_strerror(rv));
 	}
 	nng_aio_cancel(a1);
 	nng_aio_wait(a1);
 	nng_msg *m = nng_aio_get_msg(a1);
 	nng_aio_set_msg(a1, NULL);
 	if (m != NULL) nng_msg_free(m);
+}
+
+static void
+quiet_probes(nng_ctx pc, bool sock_free, nng_aio *a1, nng_aio *a2)
+{
+	second_recv_probe(pc, false, a1, a2);
+	if (sock_free) second_recv_probe(pc, true, a1, a2);
 	// send with nothing received
 	worker pw = { .idx = 99, .is_sock = false, .ctx = pc };
 	if (expect_estate_send(&pw, a2, "idle-context")) probe_idle_send++;
@@ -507,24 +621,32 @@ run_case(long idx, const casecfg *cc)
 	worker       wk[MAXWORK];
 	peer         pr[MAXPEERS];
 	nng_listener lt, lx;
-	nng_ctx      pc;
+	nng_ctx      pc = NNG_CTX_INITIALIZER;
 	nng_aio     *a1, *a2;
 	char         url[128];
 	int          rv, port = 0;
 	vf_rng       r;
 
-	vf_case_begin(idx, "peers=%d(%s%s%s%s) workers=%d%s ttl=%d window=%d rounds=%d exchanges=%ld xtran=%s jitter=%d/%dus key=%llx", cc->npeers,
+	vf_case_begin(idx, "replier=%s%s peers=%d(%s%s%s%s) workers=%d%s ttl=%d window=%d rounds=%d exchanges=%ld xtran=%s jitter=%d/%dus key=%llx", cc->raw ? "raw" : "cooked", cc->cuts ? "+cuts" : "", cc->npeers,
 	    pkname[cc->kind[0]], cc->npeers > 1 ? pkname[cc->kind[1]] : "", cc->npeers > 2 ? pkname[cc->kind[2]] : "", cc->npeers > 3 ? pkname[cc->kind[3]] : "",
 	    cc->nworkers, cc->use_sock ? "+sock" : "", cc->ttl, cc->window, cc->rounds, cc->exchanges, vf_tran_names[cc->tran], cc->jit_permille, cc->jit_us,
 	    (unsigned long long) cc->key);
 	vf_watchdog(240);
 	vf_rng_seed(&r, cc->key, 1);
+	pthread_mutex_init(&G.cutmtx, NULL);
+	probe_second_recv_sock = 0;
 	atomic_store(&G.stop, false);
 	probe_second_recv = probe_idle_send = probe_gone_send = 0;
 	for (int i = 0; i < MAXWORDS; i++) G.common[i] = (uint32_t) vf_rand(&r) & 0x7fffffffu;
 	G.common[MAXWORDS - 1] |= 0x80000000u;
 
-	if ((rv = nng_rep0_open(&G.rep)) != 0) vf_harness_fail("rep open: %s", nng_strerror(rv));
+	if ((rv = (cc->raw ? nng_rep0_open_raw(&G.rep) : nng_rep0_open(&G.rep))) != 0) vf_harness_fail("rep open: %s", nng_strerror(rv));
+	if (cc->raw) {
+		nng_socket_set_ms(G.rep, NNG_OPT_RECVTIMEO, 20);
+		nng_socket_set_ms(G.rep, NNG_OPT_SENDTIMEO, LONG_MS);
+		nng_socket_set_int(G.rep, NNG_OPT_RECVBUF, 128);
+		nng_socket_set_int(G.rep, NNG_OPT_SENDBUF, 128);
+	}
 	nng_socket_set_int(G.rep, NNG_OPT_MAXTTL, cc->ttl);
 	nng_socket_set_size(G.rep, NNG_OPT_RECVMAXSZ, 0);
 	if ((rv = nng_listen(G.rep, "tcp://127.0.0.1:0", &lt, 0)) != 0) vf_harness_fail("rep listen tcp: %s", nng_strerror(rv));
@@ -533,7 +655,7 @@ run_case(long idx, const casecfg *cc)
 	vf_url(cc->tran, url, sizeof(url));
 	if ((rv = nng_listen(G.rep, url, &lx, 0)) != 0) vf_harness_fail("rep listen %s: %s", url, nng_strerror(rv));
 	vf_dial_url(lx, cc->tran, url, G.xurl, sizeof(G.xurl));
-	if (nng_ctx_open(&pc, G.rep) != 0) vf_harness_fail("ctx open");
+	if (!cc->raw && nng_ctx_open(&pc, G.rep) != 0) vf_harness_fail("ctx open");
 	if (nng_aio_alloc(&a1, NULL, NULL) != 0 || nng_aio_alloc(&a2, NULL, NULL) != 0) vf_harness_fail("aio alloc");
 
 	// connections
@@ -568,7 +690,7 @@ run_case(long idx, const casecfg *cc)
 	pthread_barrier_init(&G.bar, NULL, (unsigned) cc->npeers + 1);
 
 	// before anything was ever received
-	quiet_probes(pc, true, a1, a2);
+	if (!cc->raw) quiet_probes(pc, true, a1, a2);
 
 	vf_pt_jitter(cc->key, cc->jit_permille, cc->jit_us);
 	memset(wk, 0, sizeof(wk));
@@ -576,9 +698,9 @@ run_case(long idx, const casecfg *cc)
 		worker *w = &wk[i];
 		w->idx = i;
 		w->cc = cc;
-		w->is_sock = cc->use_sock && i == 0;
+		w->is_sock = cc->raw || (cc->use_sock && i == 0);
 		if (!w->is_sock && nng_ctx_open(&w->ctx, G.rep) != 0) vf_harness_fail("ctx open");
-		if (pthread_create(&w->thr, NULL, worker_thread, w) != 0) vf_harness_fail("pthread_create");
+		if (pthread_create(&w->thr, NULL, cc->raw ? raw_worker_thread : worker_thread, w) != 0) vf_harness_fail("pthread_create");
 	}
 	for (int i = 0; i < cc->npeers; i++) {
 		if (pthread_create(&pr[i].thr, NULL, peer_thread, &pr[i]) != 0) vf_harness_fail("pthread_create");
@@ -587,7 +709,7 @@ run_case(long idx, const casecfg *cc)
 		pthread_barrier_wait(&G.bar);
 		bool anyfail = false;
 		for (int i = 0; i < cc->npeers; i++) anyfail = anyfail || pr[i].failed;
-		if (!anyfail) quiet_probes(pc, !cc->use_sock, a1, a2);
+		if (!anyfail && !cc->raw) quiet_probes(pc, !cc->use_sock, a1, a2);
 		pthread_barrier_wait(&G.bar);
 	}
 	for (int i = 0; i < cc->npeers; i++) pthread_join(pr[i].thr, NULL);
@@ -619,8 +741,16 @@ run_case(long idx, const casecfg *cc)
 	atomic_store(&G.stop, true);
 	for (int i = 0; i < cc->nworkers; i++) pthread_join(wk[i].thr, NULL);
 	pthread_barrier_destroy(&G.bar);
-	gone_probe(pc, false, a1, a2);
-	gone_probe(pc, true, a1, a2);
+	if (!cc->raw) {
+		// (connections that were cut are gone for good by now)
+		for (int i = 0; vf_pipe_count(G.rep) != cc->npeers; i++) {
+			if (i > 20000) vf_harness_fail("REP has %d pipes for %d connections", vf_pipe_count(G.rep), cc->npeers);
+			vf_msleep(1);
+		}
+		gone_probe(pc, false, a1, a2);
+		gone_probe(pc, true, a1, a2);
+	}
+	pthread_mutex_destroy(&G.cutmtx);
 
 	// evidence
 	long verified = 0, sent = 0, drops = 0, served = 0, wdrops = 0, common = 0;
@@ -631,7 +761,7 @@ run_case(long idx, const casecfg *cc)
 		drops += p->drops;
 		common += p->common_used;
 		for (int h = 0; h < MAXWORDS; h++) {
-			if (p->by_hops[h]) vf_class("rep/%s/hops=%d/window=%d/%s", pkname[p->kind], h, cc->window > 1 ? (cc->window > 4 ? 8 : 4) : 1, cc->use_sock ? "sock+ctx" : "ctx");
+			if (p->by_hops[h]) vf_class("rep%s/%s/hops=%d/window=%d/%s", cc->raw ? "-raw" : "", pkname[p->kind], h, cc->window > 1 ? (cc->window > 4 ? 8 : 4) : 1, cc->use_sock ? "sock+ctx" : "ctx");
 		}
 		for (int w = 0; w < MAXWORK; w++) {
 			if (p->seen_worker[w]) vf_class("rep/%s/served-by-%s/peers=%d", pkname[p->kind], (w == 0 && cc->use_sock) ? "socket" : "context", cc->npeers);
@@ -661,6 +791,18 @@ run_case(long idx, const casecfg *cc)
 	vf_stat("estate_rep_second_recv", probe_second_recv);
 	vf_stat("estate_rep_send_idle", probe_idle_send);
 	vf_stat("estate_rep_send_after_reply_to_gone", probe_gone_send);
+	vf_stat("estate_rep_second_recv_socket", probe_second_recv_sock);
+	long cuts = 0, lost = 0, rawv = 0;
+	for (int i = 0; i < cc->npeers; i++) {
+		cuts += pr[i].cuts;
+		lost += pr[i].lost;
+		rawv += pr[i].raw_verified;
+	}
+	vf_stat("rep_connection_cuts", cuts);
+	vf_stat("rep_requests_lost_with_connection", lost);
+	vf_stat("rep_raw_replies_verified", rawv);
+	vf_stat("rep_raw_cases", cc->raw ? 1 : 0);
+	if (cuts) vf_class("rep/%s/connection-cut-mid-round/peers=%d", cc->raw ? "raw" : "cooked", cc->npeers);
 	vf_stat("connections", cc->npeers);
 	vf_stat("cases", 1);
 	if ((idx & 7) == 0) {
@@ -669,7 +811,7 @@ run_case(long idx, const casecfg *cc)
 	}
 	nng_aio_free(a1);
 	nng_aio_free(a2);
-	nng_ctx_close(pc);
+	if (!cc->raw) nng_ctx_close(pc);
 	nng_socket_close(G.rep);
 	vf_nng_fini("C04");
 	vf_nng_init(4, 2, 2);
@@ -694,6 +836,9 @@ main(int argc, char **argv)
 		for (int i = 0; i < MAXPEERS; i++) c.kind[i] = vf_chance(&r, 1, 2) ? PK_TCP : PK_XREQ;
 		c.nworkers = (int) vf_range(&r, 1, MAXWORK);
 		c.use_sock = vf_chance(&r, 1, 2);
+		c.raw = vf_chance(&r, 1, 4);
+		c.cuts = vf_chance(&r, 2, 3);
+		if (c.raw) c.use_sock = false;
 		uint32_t k = vf_below(&r, 4);
 		c.ttl = k == 0 ? 15 : k == 1 ? (int) vf_range(&r, 1, 4) : 8;
 		c.window = (int) vf_range(&r, 1, 8);
